@@ -86,7 +86,7 @@ def strategy(tier):
 
 
 def budget(tier):
-    return 130 if tier == "quick" else 1500
+    return 130 if tier == "quick" else 8000
 
 
 def classify(case):
